@@ -32,7 +32,7 @@ func vHammerWatchable() bool {
 		go func() { defer wg.Done(); spin(); _, ch = w.Value() }()
 		atomic.StoreInt32(&gate, 1)
 		wg.Wait()
-		if final := w.p.Load(); final != nil && ch != final.c && !vIsClosed(ch) {
+		if _, finalCh := w.Value(); ch != finalCh && !vIsClosed(ch) {
 			return true
 		}
 	}
@@ -89,21 +89,19 @@ func VerifWatchable(setters int, rounds int) {
 		vAtomic(func() { obsDone = true })
 	}()
 	vQuiesce()
-	final := w.p.Load()
-	if final == nil {
-		vAssert(setters == 0 && false, "watchable/value-installs-a-cell")
-		return
-	}
-	vAssert(!vIsClosed(final.c), "watchable/current-channel-is-open")
+	// the final state through the public API only (the representation is the library's business)
+	finalV, finalCh := w.Value()
+	vAssert(finalCh != nil, "watchable/value-hands-out-a-channel")
+	vAssert(!vIsClosed(finalCh), "watchable/current-channel-is-open")
 	if setters == 0 {
-		vAssert(final.t == 0, "watchable/zero-before-first-set")
+		vAssert(finalV == 0, "watchable/zero-before-first-set")
 	} else {
-		vAssert(final.t >= 1 && final.t <= setters, "watchable/final-value-is-a-set-argument")
+		vAssert(finalV >= 1 && finalV <= setters, "watchable/final-value-is-a-set-argument")
 	}
 	for _, s := range seen {
 		vAssert(s.v >= 0 && s.v <= setters, "watchable/value-is-zero-or-a-set-argument")
-		if s.ch == final.c {
-			vAssert(s.v == final.t, "watchable/open-channel-goes-with-the-final-value")
+		if s.ch == finalCh {
+			vAssert(s.v == finalV, "watchable/open-channel-goes-with-the-final-value")
 		} else {
 			vAssert(vIsClosed(s.ch), "watchable/older-channels-are-closed")
 		}
@@ -117,7 +115,7 @@ func VerifWatchable(setters int, rounds int) {
 		_ = last
 		parkedOnFinal := false
 		for _, s := range seen {
-			if s.ch == final.c {
+			if s.ch == finalCh {
 				parkedOnFinal = true
 			}
 		}
